@@ -17,10 +17,29 @@ correspondence:  the cache interactions of the real run are RECORDED (monkeypatc
                  miss / bypass and the value returned - i.e. exactly what the real
                  LFUCache inside DeepDiff did.  The hypothesis of the theorem
                  ("same key => same value") is evaluated on every recorded tree.
+                 Round 3: the pairs bodies are COMPUTED (DiffIO/MemoPairs.v): from the
+                 hashes, the cut-off and the distance each nested run ends with, the
+                 model builds the whole program - keys, loop order, greedy selection,
+                 continuation - and predicts every cache event AND every cached value
+                 (distances, pairs dictionaries in insertion order) of the cached run;
+                 the greedy selection alone is also compared on every recorded pairs
+                 call and on synthetic distance matrices with ties (the real method
+                 driven through a stub self); the two cache keys are checked to be
+                 injective functions of (sorted added, sorted removed) / the unordered
+                 hash pair.  Sessions of runs that pass ONE `hashes` dictionary
+                 (DiffIO/MemoHashes.v): the model threads the table through all runs and
+                 predicts every result; a spying dictionary checks that no id()-keyed
+                 entry written by an earlier run is ever read.
 direct oracle:   result equality across cache_size x cache_tuning_sample_size x
-                 cache_purge_level, fresh vs reused `hashes`, repeated runs;
-                 a threaded stress run (DeepDiff / DeepHash / Delta mixed,
-                 switch interval 1e-6) whose per-task results equal the sequential ones.
+                 cache_purge_level, fresh vs reused `hashes`, repeated runs, sessions
+                 sharing one table; all splits of 3-5 shared unmatched items between
+                 added and removed at two places (a pairing memoised for one place must
+                 not be served to the other); a threaded stress run (DeepDiff / DeepHash
+                 / Delta mixed, switch interval 1e-6) whose per-task results equal the
+                 sequential ones.
+extension:       a `hashes` table left by a run under OTHER hashing options (outside
+                 the property: recorded, never a violation): the model with the stale
+                 table reproduces the implementation's results.
 """
 import copy
 import logging
@@ -41,16 +60,23 @@ RULE = ("pairs (t1, t2) as in C05 plus 'planted' shapes: a pool of sub-lists cop
         "occur (eviction); a case = (t1, t2, ignore_order, report_repetition, cache_size, cache_tuning_sample_size, cache_purge_level | hashes table | repetition | thread schedule); "
         "non-trivial = the run performs at least one cache lookup; distinct = distinct (canonical t1, canonical t2, settings)")
 TRUSTED = [
-    "the run is modelled as a program of memoised calls whose miss-bodies and continuations are arbitrary; that the value computed for a key is a function of the key "
-    "(`consistent`, = max_passes / max_diffs not exhausted mid-run) is a hypothesis of C17_cache_transparent, evaluated on every recorded call tree at run time",
+    "the run is modelled as a program of memoised calls; the pairs bodies are concrete (double loop of distance calls in loop order + the greedy selection, DiffIO/MemoPairs.v), "
+    "the nested run behind a distance call is an arbitrary program of the same shape ending in a distance (what it returns is block Dist's rough_distance on the nested diff: "
+    "C17_rough_distance_symmetric_iff); that the value computed for a key is a function of the key (`consistent` = no key computed with two values along the cache-less run, "
+    "C17_guard_is_functional_calls; fails exactly through the two sorted cache keys: findings K17, K28; also if max_passes / max_diffs run out mid-run) is a hypothesis of the "
+    "transparency theorems, evaluated on every recorded call tree at run time",
     "the cache is the LFU model of C18 (Lfu/LfuModel.v, tied to lfucache.py by C18's correspondence); DummyLFU (cache_size=0) = the schedule that never enables the cache",
     "thread scheduling / the GIL are not modelled: the concurrency clause is tied to the sequential statement by a stress run only (partial)",
-    "cache_purge_level only deletes attributes after the result is built: it does not occur in the model (direct oracle only)",
+    "cache_purge_level only deletes DeepDiff's own references (cache, hashes) after the result is built; a caller's `hashes` dictionary survives whatever the level: "
+    "in the model a session threads the table, every run starts with a fresh cache (direct oracle for the levels themselves)",
+    "id()-keyed entries of a `hashes` table are never read back by a later run (DeepHash._hash cannot look an unhashable object up; __getitem__ reads an id entry only right after "
+    "the same DeepHash call rewrote it): the model's table never finds such entries; checked on every session with a spying dictionary",
+    "numpy pre-calculated distances (>= 2 added and >= 2 removed numbers of one type) by-pass the memoised distance calls: the matrix is an input of the pairs model (`pre`)",
 ]
 ASSUMPTIONS = ["tree-shaped inputs", "max_passes and max_diffs are not exhausted during the run (default 10**7 / None)", "no nan/inf/-0.0"]
 
 HEADER = ("From DD Require Import Base.PyStr Base.Value Diff.Tree Diff.DiffModel Diff.DiffShow Hash.HashModel Lfu.LfuModel "
-          "DiffIO.DiffIOModel DiffIO.DiffIOShow DiffIO.MemoModel DiffIO.MemoShow DiffIO.DiffIOCache DiffIO.DiffIOCacheShow DiffIO.MemoPairs DiffIO.MemoPairsShow.\nLocal Open Scope Z_scope.")
+          "DiffIO.DiffIOModel DiffIO.DiffIOShow DiffIO.MemoModel DiffIO.MemoShow DiffIO.DiffIOCache DiffIO.DiffIOCacheShow DiffIO.MemoPairs DiffIO.MemoPairsShow DiffIO.MemoHashes DiffIO.MemoHashesShow.\nLocal Open Scope Z_scope.")
 
 CACHE_SIZES = [0, 1, 2, 7, 5000]
 TUNING = [0, 1, 2, 10]
@@ -281,6 +307,9 @@ def replay_witnesses(ctx):
                                       "the refutation witness (same key, two values) no longer describes the code", "d(L,'u')": d1, "d('u',L)": d2})
     elif plain == cached:
         ctx.break_("correspondence", {"name": "C17_cache_transparent_refuted", "detail": "the K17 witness no longer gives different results with and without cache"})
+    if (d1, d2) != (3 / 11, 11 / 11):
+        ctx.break_("correspondence", {"name": "C17_k17_distance_asymmetric", "detail": "the distance model (Dist block, through the diff model) gives 3/11 and 11/11 "
+                                      "for [1..9] <-> 'u'; the implementation gives other values", "d(L,'u')": d1, "d('u',L)": d2})
     # C17_pairs_order_refuted: two levels with the same added hashes in opposite order, a tie in the distances
     a, b = K28_WITNESS
     plain2 = text_result(a, b, ignore_order=True)
@@ -741,6 +770,138 @@ def _hashes_task(args):
     return out
 
 
+class SpyDict(dict):
+    """a `hashes` dictionary that notices STALE reads of id()-keyed entries: a successful lookup of an id key that was
+    last written during an earlier run of the session (the model's assumption: [MI] entries are never found)"""
+
+    def __init__(self):
+        super().__init__()
+        self.epoch = 0
+        self.written = {}
+        self.stale = []
+        self.small = set()
+        from deepdiff.helper import ID_PREFIX
+        self.prefix = ID_PREFIX
+
+    def _is_id(self, k):
+        # helper.get_id: ID_PREFIX + str(id(obj))
+        return type(k) is str and k.startswith(self.prefix) and k[len(self.prefix):].isdigit() and k not in self.small
+
+    def __setitem__(self, k, v):
+        if self._is_id(k):
+            self.written[k] = self.epoch
+        super().__setitem__(k, v)
+
+    def __getitem__(self, k):
+        v = super().__getitem__(k)
+        if self._is_id(k) and self.written.get(k) != self.epoch:
+            self.stale.append(k)
+        return v
+
+
+def strs_of(v, out):
+    if isinstance(v, (list, tuple, set, frozenset)):
+        for x in v:
+            strs_of(x, out)
+    elif isinstance(v, dict):
+        for k, x in v.items():
+            strs_of(k, out)
+            strs_of(x, out)
+    elif type(v) is str:
+        out.add(v)
+
+
+def _session_task(args):
+    """a session of runs that all pass ONE dictionary as `hashes` (fresh objects each run).  Returns, per run, the
+    observable with the shared table, the observable alone, the recorded pairings; and the model expression"""
+    seq, thr = args
+    from deepdiff import DeepDiff
+    table = SpyDict()
+    shared, alone, reqs, ud, raised = [], [], [], [], False
+    for t1r, t2r, rep in seq:
+        t1, t2 = c05.from_repr(t1r), c05.from_repr(t2r)
+        strs_of(t1, table.small)
+        strs_of(t2, table.small)
+        table.epoch += 1
+        a, b = copy.deepcopy(t1), copy.deepcopy(t2)
+        with c05.Recording() as rec:
+            try:
+                r = DeepDiff(a, b, ignore_order=True, report_repetition=rep, hashes=table, view="tree")
+                obs = c05.io_obs(r)
+                tbl = c05.pairs_table(rec)
+            except Exception as e:  # noqa
+                obs, tbl, raised = "EXC " + repr(e), [], True
+        shared.append(obs)
+        alone.append(result_obs(t1, t2, ignore_order=True, report_repetition=rep)[0])
+        reqs.append("(%s, %s, %s, %s)" % (core.coq_bool(rep), c05.coq_pairs_table(tbl), V.to_coq(t1), V.to_coq(t2)))
+        ud += [x for x in D.udiff_table(t1, t2) if x not in ud]
+    expr = "run_session_m %s %s %s" % (D.coq_udiff_table(ud), D.coq_cfg(False, thr), core.coq_list(reqs))
+    return seq, shared, alone, expr, raised, len(table.stale), len([k for k in table.written])
+
+
+def gen_session(rng, mixed):
+    """3-4 runs over values that share hashable parts (tuples, strings, numbers recur across the runs);
+    `mixed`: report_repetition differs between the runs (a table from a run under OTHER hashing options)"""
+    n = rng.randint(3, 4)
+    pool = [tuple(rng.choice([1, 2, 3]) for _ in range(rng.randint(2, 4))) for _ in range(4)] + ["s%d" % i for i in range(3)] + \
+           [[rng.randint(0, 5) for _ in range(rng.randint(2, 4))] for _ in range(3)]
+    seq = []
+    rep0 = rng.random() < 0.5
+    for i in range(n):
+        if rng.random() < 0.6:
+            k = rng.randint(3, 6)
+            a = [copy.deepcopy(rng.choice(pool)) for _ in range(k)]
+            b = [copy.deepcopy(rng.choice(pool)) for _ in range(k)]
+            if rng.random() < 0.5:
+                b = list(reversed(copy.deepcopy(a))) + [copy.deepcopy(rng.choice(pool))]
+        else:
+            a, b, _k = c05.gen_pair(rng, alias=False, depth=2)
+        rep = (not rep0 if (mixed and i % 2 == 1) else rep0)
+        seq.append((repr(a), repr(b), rep))
+    if rng.random() < 0.4:                 # repeated runs: the first request again at the end
+        seq.append((seq[0][0], seq[0][1], rep0))
+    if V.contains_alias(*[c05.from_repr(x) for q in seq for x in q[:2]]):
+        return None
+    return seq
+
+
+def oracle_sessions(ctx, pool, n):
+    jobs = []
+    while len(jobs) < n:
+        seq = gen_session(ctx.rng, mixed=(len(jobs) % 3 == 2))
+        if seq is not None:
+            jobs.append((seq, 0.33))
+    cases, xcases = [], []
+    stale = ids = 0
+    for seq, shared, alone, expr, raised, nstale, nids in pool.map(_session_task, jobs, chunksize=2):
+        mixed = len({q[2] for q in seq}) > 1
+        stale += nstale
+        ids += nids
+        case = {"kind": "hashes_session", "sequence": [list(q) for q in seq]}
+        if nstale:
+            ctx.break_("correspondence", dict(case, what="an id()-keyed entry of the hashes table written by an earlier run was READ: the model's table "
+                                                          "never finds such entries (MemoHashes.v)", stale_reads=nstale))
+        if not mixed:
+            ctx.seen(("session", repr(seq)))
+            ctx.count("hashes:session(same options)")
+            for i, (x, y) in enumerate(zip(shared, alone)):
+                if x != y:
+                    ctx.fail(dict(case, failing_run=i), "run #%d of a session passing one hashes table gives %s, alone it gives %s" % (i, str(x)[:300], str(y)[:300]))
+                    break
+            if not raised:
+                cases.append((expr, shared, case))
+        else:
+            ctx.count("hashes:session(options differ between the runs: extension)")
+            if not raised:
+                xcases.append((expr, shared, dict(case, differs_from_alone=[i for i, (x, y) in enumerate(zip(shared, alone)) if x != y])))
+    timed_cases(ctx, "hashes_session", HEADER, cases, shard=6, label="session_sharing_one_hashes_table:every_result")
+    with ctx.extension("hashes_table_from_a_run_under_other_options"):
+        timed_cases(ctx, "hashes_session_x", HEADER, xcases, shard=6, label="session_with_stale_table:every_result")
+    ctx.note("hashes_sessions", {"same_options": len(cases), "other_options(extension)": len(xcases),
+                                 "stale_table_changed_a_result": sum(1 for _e, _s, c in xcases if c["differs_from_alone"]),
+                                 "id_entries_written": ids, "stale_id_reads": stale})
+
+
 def oracle_hashes(ctx, pool, n_tasks, n_inplace, n_temp):
     seeds = [ctx.rng.randrange(1 << 30) for _ in range(n_tasks)]
     for res in pool.map(_hashes_task, [(sd, n_inplace, n_temp) for sd in seeds], chunksize=1):
@@ -1013,7 +1174,17 @@ def select_synthetic(ctx, n):
     return out
 
 
+def timed_cases(ctx, name, *a, **k):
+    import time
+    t0 = time.time()
+    out = ctx.coq_cases(name, *a, **k)
+    ctx.notes.setdefault("coq_cases_wall_s", {})[name] = round(time.time() - t0, 1)
+    return out
+
+
 def correspondence(ctx, inputs, pool):
+    import time
+    t_rec = time.time()
     jobs = []
     small_set = {(repr(a), repr(b)) for a, b, kind in inputs if kind == "planted-small"}
     for i, (a, b, kind) in enumerate(inputs):
@@ -1023,6 +1194,7 @@ def correspondence(ctx, inputs, pool):
             for cs, tune in settings:
                 jobs.append((repr(a), repr(b), rep, cs, tune))
     res = pool.map(_trace_task, jobs, chunksize=2)
+    ctx.notes.setdefault("coq_cases_wall_s", {})["(recording the runs)"] = round(time.time() - t_rec, 1)
     cases, ccases, ocases = [], [], []
     seen_o = set()
     hits = evs = disabled = 0
@@ -1069,11 +1241,14 @@ def correspondence(ctx, inputs, pool):
             ctx.count("trace:with_eviction")
         if ndis:
             ctx.count("trace:cache_switched_off_mid_run")
-        tcases.append((texpr, log[1], tag))
         if pexpr is not None:
+            # the stronger form: the program is BUILT by the model (MemoPairs.v) from the hashes and the distances the nested
+            # runs end with; keys, loop order, greedy selection and every cached value are computed
             pcases.append((pexpr, plog, tag))
         else:
-            ctx.count("trace:pairs_body_not_computable(numpy pre-calculated distances / skipped pair)")
+            # fallback: the recorded call tree with recorded values (a pair skipped by loop detection, nan distances)
+            tcases.append((texpr, log[1], tag))
+            ctx.count("trace:pairs_body_not_computable(recorded tree used instead)")
         if ((t1r, t2r) in small_set or (ctx.thorough and len(t1r) + len(t2r) < 1400)) and (cs, tune) in (((7, 0), (2, 1), (1, 0), (3, 10)) if ctx.thorough else ((7, 0), (2, 1))):
             cases.append((expr, log, tag))
         ccases.append((cexpr, True, tag))
@@ -1083,27 +1258,27 @@ def correspondence(ctx, inputs, pool):
     ctx.note("trace_cache_hits", hits)
     ctx.note("trace_evictions", evs)
     ctx.note("trace_disabled_lookups", disabled)
-    ctx.coq_cases("memo_trace", HEADER, tcases, shard=40, label="memo_model:every_cache_event_of_the_run")
-    ctx.coq_cases("memo_trace_computed", HEADER, pcases, shard=20, label="memo_model_with_computed_pairs_bodies:every_cache_event_and_value")
+    timed_cases(ctx, "memo_trace", HEADER, tcases, shard=40, label="memo_model:every_cache_event_of_the_run")
+    timed_cases(ctx, "memo_trace_computed", HEADER, pcases, shard=4, label="memo_model_with_computed_pairs_bodies:every_cache_event_and_value")
     selcases += select_synthetic(ctx, 2000 if ctx.thorough else 300)
-    ctx.coq_cases("pairs_select", HEADER, selcases, shard=300, label="greedy_pair_selection")
+    timed_cases(ctx, "pairs_select", HEADER, selcases, shard=300, label="greedy_pair_selection")
     ctx.note("pairs_select_cases", {"recorded_pairs_calls": len(seen_sel), "synthetic(ties, real method through a stub self)": len(selcases) - len(seen_sel)})
-    bad = ctx.coq_cases("st_trace", HEADER, cases, shard=3, label="diff_model_with_one_cache:result+every_cache_event")
+    bad = timed_cases(ctx, "st_trace", HEADER, cases, shard=3, label="diff_model_with_one_cache:result+every_cache_event")
     if bad:
         # The RESULT of the one-cache diff model is compared strictly.  Its event log additionally depends on the order in
         # which the model walks the levels; a behaviour-preserving reordering in the implementation (e.g. of dict keys) changes
         # the order of the cache events without touching any result, and the order-agnostic memo-model prediction above
         # (program taken from the recorded run) already covers every event.  So: log-only mismatches are recorded, not alarmed.
         rc = [(cases[i][0].replace("run_st ", "run_st_result ", 1), [cases[i][1][0]], cases[i][2]) for i, _t, _x in bad]
-        bad2 = ctx.coq_cases("st_result", HEADER, rc, shard=3, label="diff_model_with_one_cache:result(recheck)")
+        bad2 = timed_cases(ctx, "st_result", HEADER, rc, shard=3, label="diff_model_with_one_cache:result(recheck)")
         if not bad2:
             ctx.breaks = [b for b in ctx.breaks if not (b.get("kind") == "correspondence" and b.get("detail", {}).get("name") == "st_trace")]
             ctx.corr_mismatch -= len(bad)
             ctx.note("st_traversal_order_differs_from_model", {"cases": len(bad), "meaning": "results agree; the implementation issues its cache calls in another order than diff_io_st (not a property of C17)"})
     else:
         ctx.note("st_traversal_order_differs_from_model", {"cases": 0})
-    ctx.coq_cases("memo_consistent", HEADER, ccases, shard=80, label="same_key_same_value")
-    ctx.coq_cases("st_order", HEADER, ocases, shard=3, label="t2_key_order_traversal_lists_the_entries_of_diff_io")
+    timed_cases(ctx, "memo_consistent", HEADER, ccases, shard=80, label="same_key_same_value")
+    timed_cases(ctx, "st_order", HEADER, ocases, shard=3, label="t2_key_order_traversal_lists_the_entries_of_diff_io")
 
 
 # ---------------------------------------------------------------------------
@@ -1362,6 +1537,7 @@ def run(ctx):
         tm["grid"] = round(time.time() - t0, 1)
         t0 = time.time()
         oracle_hashes(ctx, pool, core.NCPU, 12 if ctx.thorough else 3, 6 if ctx.thorough else 2)
+        oracle_sessions(ctx, pool, 150 if ctx.thorough else 24)
         tm["hashes"] = round(time.time() - t0, 1)
     t0 = time.time()
     delta_parked(ctx)
@@ -1379,6 +1555,15 @@ def replay(ctx, data):
         print("replay: hashes_inplace ->", probs or "results agree")
         if probs:
             ctx.fail(case, "passing a previously used hashes table changes the result: " + probs[0])
+        return
+    if case.get("kind") == "hashes_session":
+        seq = [tuple(q) for q in case["sequence"]]
+        _seq, shared, alone, _expr, _raised, nstale, _n = _session_task((seq, 0.33))
+        ctx.evaluations += 1
+        bad = [i for i, (x, y) in enumerate(zip(shared, alone)) if x != y]
+        print("replay: hashes_session -> runs that differ from the run alone:", bad or "none", "stale id reads:", nstale)
+        if bad and len({q[2] for q in seq}) == 1:
+            ctx.fail(case, "run #%d of a session passing one hashes table differs from the run alone" % bad[0])
         return
     if case.get("kind") == "hashes_temporaries":
         for _ in range(5):      # id recycling is up to the allocator: a few attempts
